@@ -1,15 +1,23 @@
-(* Props/C05.v -- property theorems only.  Each is closed by `exact <lemma>` and followed by Print Assumptions. *)
+(* Props/C05.v -- property theorems only.  Each is closed by `exact <lemma>` and followed by Print Assumptions.
+   Notation (Proofs/C05.v): con_order c = 1 (monotone) / 2 (convex, concave); viols c beta = the list of the violating
+   (negative for inc/convex, positive for dec/concave; STRICT, ties are not violations) con_order-th differences of beta;
+   satisfies c beta = all those differences have the right sign (>= 0 resp. <= 0);
+   con_form c beta v = sum over the positions violating IN beta of the squared differences OF v. *)
 From Coq Require Import List Reals.
-From PG Require Import Base.Ops Base.Vec Model.Constraints Proofs.VecR Proofs.C05.
+From PG Require Import Base.Ops Base.Vec Model.Constraints Proofs.VecR Proofs.C05 Proofs.C05Bound Proofs.C05Fibres.
 Import ListNotations.
 Open Scope R_scope.
 
-(* quad (C(beta)) beta = sum over the violating positions of the squared first (monotone) / second (convex, concave)
-   differences; `viols c beta` is the list of the negative (inc, convex) resp. positive (dec, concave) differences *)
+(* ---- one constraint matrix  penalties.monotonic_inc/dec, convex, concave, none ---- *)
 Theorem C05_quadform : forall c n beta, length beta = n ->
   quadR (con_matrix Rrops n beta c) beta = sumsqR (viols c beta).
 Proof. exact con_quadform. Qed.
 Print Assumptions C05_quadform.
+
+Theorem C05_quadform_any_vector : forall c n beta v, length beta = n -> length v = n ->
+  quadR (con_matrix Rrops n beta c) v = con_form c beta v.
+Proof. exact con_quadform_gen. Qed.
+Print Assumptions C05_quadform_any_vector.
 
 Theorem C05_psd : forall c n beta v, length beta = n -> length v = n -> 0 <= quadR (con_matrix Rrops n beta c) v.
 Proof. exact con_psd. Qed.
@@ -24,3 +32,98 @@ Theorem C05_zero_iff : forall c n beta, length beta = n ->
   (quadR (con_matrix Rrops n beta c) beta = 0 <-> satisfies c beta).
 Proof. exact con_zero_iff. Qed.
 Print Assumptions C05_zero_iff.
+
+(* satisfies, in index form: all consecutive differences of l have property P *)
+Theorem C05_satisfies_index_form : forall (P : R -> Prop) l,
+  Forall P (diffR l) <-> (forall i, (S i < length l)%nat -> P (nth (S i) l 0 - nth i l 0)).
+Proof. exact Forall_diff_iff. Qed.
+Print Assumptions C05_satisfies_index_form.
+
+(* a satisfied constraint (ties included) contributes the ZERO matrix *)
+Theorem C05_satisfied_zero_matrix : forall c n beta, satisfies c beta -> allzero (con_matrix Rrops n beta c).
+Proof. exact con_satisfied_zero. Qed.
+Print Assumptions C05_satisfied_zero_matrix.
+
+(* ---- Term.build_constraints: sum over the term's constraints, times constraint_lam, plus the constraint_l2 ridge iff non-zero ---- *)
+Theorem C05_term_quadform : forall n beta cons clam cl2, length beta = n ->
+  quadR (term_constraints Rrops n beta cons clam cl2) beta =
+    clam * rsum (map (fun c => sumsqR (viols c beta)) cons)
+    + (if any_nonzero Rrops (constraint_sum Rrops n beta cons clam) then cl2 * sumsqR beta else 0).
+Proof. exact term_quadform. Qed.
+Print Assumptions C05_term_quadform.
+
+Theorem C05_term_psd : forall n beta cons clam cl2 v, length beta = n -> length v = n -> 0 <= clam -> 0 <= cl2 ->
+  0 <= quadR (term_constraints Rrops n beta cons clam cl2) v.
+Proof. exact term_psd. Qed.
+Print Assumptions C05_term_psd.
+
+Theorem C05_term_sym : forall n beta cons clam cl2 u v, length u = n -> length v = n ->
+  dotR u (matvecR (term_constraints Rrops n beta cons clam cl2) v) = dotR v (matvecR (term_constraints Rrops n beta cons clam cl2) u).
+Proof. exact term_bisym. Qed.
+Print Assumptions C05_term_sym.
+
+Theorem C05_term_zero_iff : forall n beta cons clam cl2, length beta = n -> 0 < clam -> 0 <= cl2 ->
+  (quadR (term_constraints Rrops n beta cons clam cl2) beta = 0 <-> Forall (fun c => satisfies c beta) cons).
+Proof. exact term_zero_iff. Qed.
+Print Assumptions C05_term_zero_iff.
+
+Theorem C05_term_satisfied_zero_matrix : forall n beta cons clam cl2, Forall (fun c => satisfies c beta) cons ->
+  allzero (term_constraints Rrops n beta cons clam cl2).
+Proof. exact term_satisfied_zero. Qed.
+Print Assumptions C05_term_satisfied_zero_matrix.
+
+(* ---- tensor terms: the slices enumerated by TensorTerm._iterate_marginal_coef_slices ---- *)
+Theorem C05_tensor_fibres : forall dims i, (i < length dims)%nat ->
+  (* they partition the coefficient block ... *)
+  Permutation.Permutation (concat (fibres dims i)) (seq 0 (nprod dims)) /\
+  (* ... and each is an axis-i line of the C-order coefficient tensor: a multi-index with the i-th component running *)
+  (forall f, In f (fibres dims i) -> exists idx, length idx = length dims /\
+       (forall k, (k < nth i dims O)%nat -> Forall2 (fun j d => (j < d)%nat) (set_nth idx i k) dims) /\
+       f = map (fun k => ravel dims (set_nth idx i k)) (seq 0 (nth i dims O))).
+Proof. exact fibres_spec. Qed.
+Print Assumptions C05_tensor_fibres.
+
+(* ---- the soft-constraint violation bound ----
+   One PIRLS step solves (B^T W^2 B + SP + Cc) bn = B^T W^2 z  (B by rows, Bt m B u = B^T u, SP = S + P any matrix with
+   bn' SP bn >= 0, Cc the constraint matrix built from the coefficients ENTERING the step).  fit_resid = <B bn, W^2 (z - B bn)>. *)
+Theorem C05_step_identity : forall m B w2 z SP Cc bn,
+  Forall (fun r => length r = m) B -> length w2 = length B -> length z = length B -> length bn = m ->
+  square SP m -> square Cc m ->
+  vaddR (vaddR (Bt m B (vmulR w2 (matvecR B bn))) (matvecR SP bn)) (matvecR Cc bn) = Bt m B (vmulR w2 z) ->
+  quadR Cc bn = fit_resid B w2 z bn - quadR SP bn.
+Proof. exact step_identity. Qed.
+Print Assumptions C05_step_identity.
+
+Theorem C05_step_bound : forall m B w2 z SP Cc bn,
+  Forall (fun r => length r = m) B -> length w2 = length B -> length z = length B -> length bn = m ->
+  square SP m -> square Cc m ->
+  vaddR (vaddR (Bt m B (vmulR w2 (matvecR B bn))) (matvecR SP bn)) (matvecR Cc bn) = Bt m B (vmulR w2 z) ->
+  forall V, 0 <= quadR SP bn -> V <= quadR Cc bn ->
+  V <= fit_resid B w2 z bn - quadR SP bn /\ fit_resid B w2 z bn - quadR SP bn <= Rabs (fit_resid B w2 z bn).
+Proof. exact step_bound. Qed.
+Print Assumptions C05_step_bound.
+
+(* the lower bound V to use: constraint_lam times the squared differences of v at the positions masked in beta *)
+Theorem C05_term_quad_lower : forall n beta cons clam cl2 v, length beta = n -> length v = n -> 0 <= cl2 ->
+  clam * rsum (map (fun c => con_form c beta v) cons) <= quadR (term_constraints Rrops n beta cons clam cl2) v.
+Proof. exact term_quad_lower. Qed.
+Print Assumptions C05_term_quad_lower.
+
+(* fixed point, all coefficients in one constrained term:
+   c * sum_{violating} (delta beta_j)^2 <= <B beta, W^2 (z - B beta)> - beta'(S+P)beta <= |<B beta, W^2 (z - B beta)>| *)
+Theorem C05_violation_bound : forall m B w2 z SP cons clam cl2 beta,
+  Forall (fun r => length r = m) B -> length w2 = length B -> length z = length B -> length beta = m ->
+  square SP m -> 0 <= quadR SP beta -> 0 <= cl2 ->
+  vaddR (vaddR (Bt m B (vmulR w2 (matvecR B beta))) (matvecR SP beta))
+        (matvecR (term_constraints Rrops m beta cons clam cl2) beta) = Bt m B (vmulR w2 z) ->
+  clam * rsum (map (fun c => sumsqR (viols c beta)) cons) <= fit_resid B w2 z beta - quadR SP beta
+  /\ fit_resid B w2 z beta - quadR SP beta <= Rabs (fit_resid B w2 z beta).
+Proof. exact violation_bound_term. Qed.
+Print Assumptions C05_violation_bound.
+
+(* C05_coef_to_function_partial (NOT PROVED HERE): "coefficients satisfying the constraint (up to v) give a spline function with
+   the requested shape (up to d*v*max(1,delta/h)^d on a grid of spacing delta), inside the knot range and, for spline order >= 1,
+   on the linear continuation beyond it".  It needs the B-spline derivative formula (C03_slope_is_derivative, owned by the C03
+   model).  Until then the function-level shape is checked by correspondence on every converged fit (harness/props/c05.py,
+   check_function_shape), and it is REFUTED by a concrete fit for tensor marginals when the OTHER variable is extrapolated
+   (candidate finding S16, harness/props/c05.py s16_witness). *)
